@@ -245,3 +245,23 @@ def statements_of(node, acc=None):
         for c in node.children:
             statements_of(c, acc)
     return acc
+
+
+def shared_loops(node, acc=None):
+    """Sets of >= 2 distinct statement ids found inside one ForLoop node."""
+    acc = [] if acc is None else acc
+    k = _kind(node)
+    if k == "ForLoop":
+        ids = {s.id for s in statements_of(node)}
+        if len(ids) > 1:
+            acc.append(ids)
+        shared_loops(node.body, acc)
+    elif k == "IfThen":
+        shared_loops(node.then, acc)
+    elif k == "IfThenElse":
+        shared_loops(node.then, acc)
+        shared_loops(node.else_, acc)
+    elif k == "Block":
+        for c in node.children:
+            shared_loops(c, acc)
+    return acc
